@@ -13,6 +13,9 @@ from ..callgraph import CallGraph
 from ..core import AnalysisError
 from ..core import RuleResult
 from ..core import norm
+from ..flow import BaseState
+from ..flow import Domain
+from ..flow import Interp
 from ..model import own_nodes
 
 
@@ -313,37 +316,140 @@ def rule_decoders(model):
     return r
 
 
+class _NS(BaseState):
+    def __init__(self, env=None):
+        self.env = dict(env or {})
+
+    def key(self):
+        return tuple(sorted(self.env.items()))
+
+    def copy(self):
+        n = _NS(self.env)
+        n.trace = self.trace
+        return n
+
+
+class _ExcDomain(Domain):
+    """Scenario: the argument is an exception object with exactly `n`
+    constructor arguments (args attribute present)."""
+
+    def __init__(self, p, n):
+        self.p = p
+        self.n = n
+        self.aliases = {f'{p}.args'}
+
+    def _is_args(self, e, st):
+        s = norm(e)
+        return s in self.aliases or (isinstance(e, ast.Name) and
+                                     st.env.get(e.id) == 'ARGS')
+
+    def truth(self, e, st):
+        if isinstance(e, ast.UnaryOp) and isinstance(e.op, ast.Not):
+            v = self.truth(e.operand, st)
+            return None if v is None else not v
+        if self._is_args(e, st):
+            return self.n > 0
+        if isinstance(e, ast.Call) and norm(e.func) == 'hasattr' and \
+                len(e.args) == 2 and norm(e.args[1]) == "'args'":
+            return True
+        if isinstance(e, ast.Compare) and len(e.ops) == 1:
+            l, op, r = e.left, e.ops[0], e.comparators[0]
+            if isinstance(l, ast.Call) and norm(l.func) == 'len' and \
+                    l.args and self._is_args(l.args[0], st) and \
+                    isinstance(r, ast.Constant) and \
+                    isinstance(r.value, int):
+                k = r.value
+                return {ast.Eq: self.n == k, ast.NotEq: self.n != k,
+                        ast.Gt: self.n > k, ast.GtE: self.n >= k,
+                        ast.Lt: self.n < k, ast.LtE: self.n <= k}.get(
+                            type(op))
+            if self._is_args(l, st) and isinstance(op, (ast.Is, ast.IsNot)) \
+                    and isinstance(r, ast.Constant) and r.value is None:
+                return isinstance(op, ast.IsNot)
+            if self._is_args(l, st) and isinstance(op, (ast.Eq, ast.NotEq)) \
+                    and norm(r) == '()':
+                return (self.n == 0) == isinstance(op, ast.Eq)
+        return None
+
+    def branch(self, test, st):
+        v = self.truth(test, st)
+        if v is None:
+            return [(True, st), (False, st)]
+        return [(v, st)]
+
+    def raises(self, node, st):
+        return []
+
+    def effects(self, stmt, st):
+        if isinstance(stmt, ast.Assign) and len(stmt.targets) == 1 and \
+                isinstance(stmt.targets[0], ast.Name):
+            v = stmt.value
+            isargs = self._is_args(v, st) or (
+                isinstance(v, ast.Call) and norm(v.func) == 'getattr' and
+                len(v.args) >= 2 and norm(v.args[0]) == self.p and
+                norm(v.args[1]) == "'args'")
+            st = st.copy()
+            if isargs:
+                st.env[stmt.targets[0].id] = 'ARGS'
+            else:
+                st.env.pop(stmt.targets[0].id, None)
+        return st
+
+    def on_return(self, node, st):
+        return [], st
+
+
 def rule_exception_str(model):
     r = RuleResult('C19.R4', 'an exception object is inserted as its '
-                   'message: no args -> empty, one arg -> that arg, else '
-                   'the args tuple')
+                   'message on every path: no args -> empty, one arg -> '
+                   'that argument (converted by ustr), else the args tuple')
     fi = model.func('ustr', '_exception_str')
     u = model.func('ustr', 'ustr')
     p = fi.params()[0]
-    empty = one = False
-    for n in own_nodes(fi.node):
-        if isinstance(n, ast.If):
-            t = norm(n.test)
-            rets = [x for x in n.body if isinstance(x, ast.Return)]
-            if t in (f'not {p}.args', f'len({p}.args) == 0',
-                     f'{p}.args == ()') and rets and \
-                    isinstance(rets[0].value, ast.Constant) and \
-                    rets[0].value.value == '':
-                empty = True
-            if t == f'len({p}.args) == 1' and rets and \
-                    norm(rets[0].value) in (f'ustr({p}.args[0])',
-                                            f'str({p}.args[0])'):
-                one = True
-    r.instance(fi.where, 'no-argument case', 'ok' if empty else 'MISSING')
-    r.instance(fi.where, 'one-argument case', 'ok' if one else 'MISSING')
-    if not empty:
-        r.finding(fi.where, 'no-argument case', 'an exception without '
-                  'arguments is not inserted as the empty string',
-                  node=fi.node, ctx=fi)
-    if not one:
-        r.finding(fi.where, 'one-argument case', 'an exception with one '
-                  'argument is not inserted as that argument',
-                  node=fi.node, ctx=fi)
+
+    def classify(ret, st, dom):
+        v = ret.value if ret is not None else None
+        if v is None:
+            return 'none'
+        if isinstance(v, ast.Constant) and v.value == '':
+            return 'empty'
+        if isinstance(v, ast.Call) and norm(v.func) in ('ustr', 'str') and \
+                len(v.args) == 1 and isinstance(v.args[0], ast.Subscript) \
+                and dom._is_args(v.args[0].value, st) and \
+                norm(v.args[0].slice) == '0':
+            return 'first'
+        if isinstance(v, ast.Call) and norm(v.func) in ('str', 'repr') and \
+                len(v.args) == 1 and dom._is_args(v.args[0], st):
+            return 'tuple'
+        if isinstance(v, ast.Call) and norm(v.func) == 'str' and \
+                len(v.args) == 1 and norm(v.args[0]) == p:
+            return 'str(exc)'
+        return 'other:' + norm(v)
+    want = {0: 'empty', 1: 'first', 2: 'tuple'}
+    for n in (0, 1, 2):
+        dom = _ExcDomain(p, n)
+        outs = Interp(dom).run(fi.node, _NS())
+        kinds = {}
+        for o in outs:
+            if o.kind == 'return':
+                kinds.setdefault(classify(o.node, o.state, dom), o)
+            elif o.kind == 'normal':
+                kinds.setdefault('none', o)
+        r.instance(fi.where, f'{n}-argument exception',
+                   ' / '.join(sorted(kinds)))
+        for k, o in sorted(kinds.items()):
+            if k != want[n]:
+                r.finding(fi.where, f'{n}-argument case', 'an exception '
+                          f'with {n} argument(s) can be inserted as '
+                          f'`{k}` instead of ' +
+                          {0: 'the empty string', 1: 'that argument '
+                           '(built-in exception classes with their own '
+                           '__str__, e.g. KeyError, quote or mangle it)',
+                           2: 'the args tuple'}[n],
+                          node=o.node or fi.node, ctx=fi,
+                          path=o.state.trace)
+        if not kinds:
+            raise AnalysisError('_exception_str: no exits')
     # ustr routes exceptions there
     routed = any(isinstance(n, ast.Call) and fi.where in
                  model.callee_names(n, u) for n in own_nodes(u.node))
@@ -356,7 +462,165 @@ def rule_exception_str(model):
     return r
 
 
-RULES = [rule_threading, rule_concat, rule_decoders, rule_exception_str]
+def rule_compile_receiver(model):
+    r = RuleResult('C19.R1c', 'the compiler recursion stays on the template '
+                   'object: section bodies are parsed by the template '
+                   'itself (self.parse / self.parse_block ...), not by the '
+                   'sub-template objects created for the sections, which do '
+                   'not carry the template encoding')
+    S = model.cls('DT_String', 'String')
+    compile_methods = {'parse', 'parse_block', 'parse_close', 'parseTag',
+                      '_parseTag', 'parse_error', 'skip_eol', 'tagre',
+                      'varExtra'}
+    n = 0
+    for cls in [S] + [c for c in model.all_classes()
+                      if c is not S and S in model.mro(c)]:
+        for name, fi in cls.methods.items():
+            if name not in compile_methods:
+                continue
+            for c in own_nodes(fi.node):
+                if isinstance(c, ast.Call) and \
+                        isinstance(c.func, ast.Attribute) and \
+                        c.func.attr in ('parse', 'parse_block',
+                                        'parse_close'):
+                    n += 1
+                    recv = norm(c.func.value)
+                    r.instance(fi.where, c, f'receiver {recv}')
+                    if recv != 'self':
+                        r.finding(fi.where, c, 'a section is parsed by '
+                                  f'`{recv}` instead of the template '
+                                  'itself: tags nested in it are built '
+                                  'with that object\'s (default) encoding, '
+                                  'so bytes inside nested blocks are '
+                                  'decoded with the wrong codec', node=c,
+                                  ctx=fi)
+    if n < 3:
+        raise AnalysisError(f'C19.R1c: only {n} recursive parse calls found')
+    r.floor = 3
+    return r
+
+
+def rule_stringify(model):
+    r = RuleResult('C19.R5', 'a value is turned into text only by the '
+                   'package converter ustr() (which leaves bytes for '
+                   'html_quote / join_unicode to decode): on the default '
+                   'format path no str()/repr()/format() is applied to the '
+                   'inserted value')
+    conv = model.func('ustr', 'ustr').where
+    # (function, value variable)
+    ren = model.func('DT_Var', 'Var.render')
+    rb = model.func('_DocumentTemplate', 'render_blocks_')
+    hq = model.func('html_quote', 'html_quote')
+    targets = []
+
+    def closure(fi):
+        out, todo = [fi], [fi]
+        while todo:
+            f = todo.pop()
+            for c in own_nodes(f.node):
+                if isinstance(c, ast.Call):
+                    for t in model.resolve_callee(c.func, f):
+                        if t[0] == 'func' and t[1].module is fi.module and \
+                                t[1] not in out and t[1].cls is None and \
+                                t[1].name not in ('render_blocks',
+                                                  'join_unicode'):
+                            out.append(t[1])
+                            todo.append(t[1])
+        return out
+    groups = []
+    for anchor in (ren, rb, hq):
+        members = closure(anchor) if anchor is rb else [anchor]
+        groups.append((anchor, members))
+    for anchor, members in groups:
+        for fi in members:
+            # the value variable: assigned from a ustr(...) call, or the
+            # returned name
+            names = set()
+            for n in own_nodes(fi.node):
+                if isinstance(n, ast.Assign) and len(n.targets) == 1 and \
+                        isinstance(n.targets[0], ast.Name) and \
+                        isinstance(n.value, ast.Call) and \
+                        conv in model.callee_names(n.value, fi):
+                    names.add(n.targets[0].id)
+            if fi is ren:
+                for n in own_nodes(fi.node):
+                    if isinstance(n, ast.Return) and \
+                            isinstance(n.value, ast.Name):
+                        names.add(n.value.id)
+            if fi is hq:
+                names.add(fi.params()[0])
+            targets.append((fi, names, anchor))
+    have = {}
+    for fi, names, anchor in targets:
+        uses = [n for n in own_nodes(fi.node) if isinstance(n, ast.Call)
+                and conv in model.callee_names(n, fi)]
+        have[anchor.where] = have.get(anchor.where, 0) + len(uses)
+    for fi, names, anchor in targets:
+        uses = have[anchor.where]
+        if fi is anchor:
+            r.instance(fi.where, f'ustr() conversions: {uses}',
+                       'ok' if uses else 'MISSING')
+        if not uses and fi is anchor:
+            r.finding(fi.where, 'ustr(value)', 'the inserted value is no '
+                      'longer converted by ustr(): bytes values are turned '
+                      "into their repr (b'...') or fail, instead of being "
+                      'decoded with the template encoding', node=fi.node,
+                      ctx=fi)
+        from ..model import ancestors
+        for n in own_nodes(fi.node):
+            if not (isinstance(n, ast.Assign) and len(n.targets) == 1 and
+                    isinstance(n.targets[0], ast.Name) and
+                    n.targets[0].id in names):
+                continue
+            v = n.value
+            bad = None
+            if isinstance(v, ast.Call) and isinstance(v.func, ast.Name) and \
+                    v.func.id in ('str', 'repr', 'format', 'ascii') and \
+                    v.args and isinstance(v.args[0], ast.Name) and \
+                    v.args[0].id in names and \
+                    not model.local_defs(fi, v.func.id):
+                bad = v
+            if isinstance(v, ast.JoinedStr) and any(
+                    isinstance(x, ast.Name) and x.id in names
+                    for x in ast.walk(v)):
+                bad = v
+            if bad is None:
+                continue
+            # explicit formats are excepted: inside `if 'fmt' in args`, or
+            # on the non-default branch of the `fmt == 's'` test, or guarded
+            # by an isinstance test that excludes bytes
+            exempt = False
+            child = n
+            for a in ancestors(n):
+                if a is fi.node:
+                    break
+                if isinstance(a, ast.If):
+                    t = norm(a.test)
+                    in_else = any(child is x for x in a.orelse)
+                    if "'fmt' in" in t and not in_else:
+                        exempt = True
+                    if ("fmt == 's'" in t and in_else) or \
+                            ("fmt != 's'" in t and not in_else):
+                        exempt = True
+                    if 'isinstance(' in t and 'bytes' in t and (
+                            (t.startswith('not ') and not in_else) or
+                            (not t.startswith('not ') and in_else)):
+                        exempt = True
+                child = a
+            r.instance(fi.where, n, 'exempt (explicit format / bytes '
+                       'excluded)' if exempt else 'BUILTIN CONVERSION')
+            if not exempt:
+                r.finding(fi.where, n, 'the inserted value is converted '
+                          'with a built-in (str/repr/format) on the default '
+                          "path: a bytes value becomes its repr (b'...') "
+                          'instead of being decoded with the template '
+                          'encoding', node=n, ctx=fi)
+    r.require_floor(3)
+    return r
+
+
+RULES = [rule_threading, rule_compile_receiver, rule_concat, rule_decoders,
+         rule_exception_str, rule_stringify]
 EXPLANATION = (
     'Call-site query: every call whose resolved callee has an `encoding` '
     'parameter must bind it (self.encoding / the received encoding), '
